@@ -158,16 +158,27 @@ def render (t : Tree) (h : Hdr) (ex : RObj → Extra) : Dump :=
 
 mutual
 /-- which objects may carry which children (hwloc's object-kind discipline): normal children only below normal objects,
-    memory children below normal objects or memory-side caches, I/O children below normal or I/O objects, PUs are leaves
-    (Misc children anywhere); each list holds objects of its own kind -/
+    memory children below normal objects or memory-side caches, I/O children below normal or I/O objects (Misc children
+    anywhere); each list holds objects of its own kind.  Preserved by the whole restrict model (`typed_restrict`). -/
 def typedT : Tree → Bool
   | .node o ns ms ios mis =>
     (isNormal o.type || ns.isEmpty) && (isNormal o.type || o.type == tMEMCACHE || ms.isEmpty) &&
-    (isNormal o.type || isIO o.type || ios.isEmpty) && (o.type != tPU || (ns.isEmpty && ms.isEmpty)) && decide (o.type < tMAX) &&
+    (isNormal o.type || isIO o.type || ios.isEmpty) && decide (o.type < tMAX) &&
     typedL isNormal ns && typedL isMemory ms && typedL isIO ios && typedL isMisc mis
 def typedL (k : Nat → Bool) : List Tree → Bool
   | [] => true
   | t :: ts => k t.obj.type && typedT t && typedL k ts
+end
+
+mutual
+/-- PUs have no normal and no memory children (used only for the PU part of no-children-where-forbidden; level merging
+    preserves it because hwloc_compare_levels_structure refuses to merge a level with memory children into the PU level) -/
+def puLeafT : Tree → Bool
+  | .node o ns ms ios mis =>
+    (o.type != tPU || (ns.isEmpty && ms.isEmpty)) && puLeafL ns && puLeafL ms && puLeafL ios && puLeafL mis
+def puLeafL : List Tree → Bool
+  | [] => true
+  | t :: ts => puLeafT t && puLeafL ts
 end
 
 end Hw.Topo.Restrict
